@@ -51,7 +51,8 @@ def stripBlackboxes (c : Circuit) (ignore : List Name) (ord : Ord) : E Circuit :
   let (g1, pins1) := (ord (c.filterType ["bb_input"])).foldl (step "bb_input") (c, [])
   let (g2, pins) := (ord (c.filterType ["bb_output"])).foldl (step "bb_output") (g1, pins1)
   let mapping := pins.map (fun n => (n, replaceDots n))
-  if mapping.any (fun p => g2.has p.2) then throw .valueError
+  -- the new names must be free in the graph and pairwise distinct (fix K32)
+  if mapping.any (fun p => g2.has p.2) || (dedup (mapping.map (·.2))).length < mapping.length then throw .valueError
   pure { (g2.relabel mapping) with bbs := [] }
 
 /-- `tx.subcircuit(c, nodes, modify_io)`; `nodes` in the caller's iteration order, `ord` for `c.edges()` -/
